@@ -348,7 +348,8 @@ static void run_batch(const Job &job, int tier, uint64_t base, uint64_t nruns, d
 // ---------------------------------------------------------------------------------------------------------
 // violation confirmation, minimisation, replay files
 
-static bool same_class(const sim::Violation &a, const sim::Violation &b) { return a.property == b.property && a.rule == b.rule; }
+// one violation class = property + rule + key: minimisation must not drift from an unknown violation into a known finding of the same rule
+static bool same_class(const sim::Violation &a, const sim::Violation &b) { return a.property == b.property && a.rule == b.rule && a.key == b.key; }
 
 static js::Val replay_json(const Plan &p, const sim::Violation &v, uint64_t hash, const std::vector<std::string> &log, bool crash, const std::string &crash_text) {
 	js::Val j = js::Val::obj();
